@@ -7,6 +7,36 @@ BASE = ("cd /repo && /venv/bin/python -m pytest -ra -q -p no:cacheprovider --tim
         "--continue-on-collection-errors")
 
 CLAIMED = {
+    'C01': dict(
+        text="TLC enumerates every document of Layout.tla (all sequences of structural line classes up to N lines, single-line deviations, LF/CRLF, final line end) together with the grammar's nesting automaton; each is rendered and parsed by the real parser in both attribution modes and print/round-trip, store concatenation and every sub-model's slice are compared with the input; PostLex.tla (mark insertion state machine, invariants checked by TLC) is replayed into the real PostLex class.",
+        note="Small scope: <= 4 (quick) / 5 (thorough) lines over 12 line classes with rotating concrete directives; characters inside lexemes are representatives (the regex lexer is exercised, not modelled).",
+        technique="TLA+ Layout enumeration + PostLex state machine (TLC), replayed on the real parser",
+        ref="§2.8, §6 C01"),
+    'C10': dict(
+        text="RepList.tla specifies one repeated field and all views onto it with Python list / ordered-dict semantics (PySeq.tla); TLC checks the design invariants and enumerates every call through every view with every index/slice spelling (depth 1) and reduced menus (depth 2-3); each behaviour is replayed on 7 repeated-field families of the real library and every view is compared with the specification after every call.",
+        note="Exhaustive within the constants in evidence.replist_runs; lists of <= 3 initial items, batches <= 2-3.",
+        technique="TLA+ RepList/PySeq (TLC) + behaviour replay on the real views",
+        ref="§2.3, §6 C10"),
+    'C03': dict(
+        text="The RepList.tla behaviours of C10 replayed on canonical and non-canonical host documents; after every call the printed text is compared with the specification's rendering Doc(raw) (canonical hosts) and the frame conditions are checked on every host: tokens outside the parent identical in identity/order/text, siblings keep their tokens, only item tokens and separator tokens appear or disappear.",
+        note="Covers repeated slots of 7 field families; optional/required slots are covered by the slot check when built (see DESIGN.md).",
+        technique="TLA+ RepList rendering + frame conditions, replayed on real documents",
+        ref="§2.3, §6 C03"),
+    'C06': dict(
+        text="After every call of every RepList.tla behaviour the printed document is re-parsed and compared three ways: content of the re-parsed tree = content of the in-memory tree = the specification's list; every view must show the same in memory and after re-parse.",
+        note="Syntax-preserving edits only (values from the lexical domain, donors with fitting indent); comment attribution aside.",
+        technique="TLA+ RepList behaviours replayed, print/re-parse three-way comparison",
+        ref="§6 C06"),
+    'C05': dict(
+        text="Tree!WellFormed (transliterated from the TLA+ predicate) is evaluated on the real tree after every call of every RepList.tla behaviour, including edits made through an inserted child (stale token store) and on popped nodes (self-contained).",
+        note="Edit kinds covered so far: all repeated-field operations through every view and edits through children; see DESIGN.md for the remaining kinds.",
+        technique="TLA+ RepList behaviours replayed, WellFormed invariant on the real tree at every step",
+        ref="§2.1, §6 C05"),
+    'C19': dict(
+        text="RepList.tla generates the refused calls (out-of-range index, missing key, size-mismatched slice, attached donors from the same or another document at every batch position) as stuttering actions; each is replayed on the real code: the exception class must match and text, token identity row, views and tree must be unchanged.",
+        note="Refusal sites of repeated fields; other sites (raw_text, cost, arithmetic) are added by their own modules.",
+        technique="TLA+ refusal-as-stutter actions (TLC) replayed on the real code",
+        ref="§6 C19"),
     'C07': dict(
         text="TLC exhaustively checks an implementation-shaped TLA+ transcription of TokenStore (blocks, stored indices, handles, size caches) against the abstract sequence for every call sequence within small constants; every enumerated behaviour is replayed on the real class and all observations compared after every call; recorded executions of the real class on larger stores are validated by TLC against the abstract trace spec.",
         note="Exhaustive within the constants in evidence.design_checks (load factors 2-5, <= 12 live tokens, depth 2-3); larger stores and the default load factor by recorded traces / randomized workload. Trusted: TLC, the Python projection (list(store), getters).",
